@@ -26,7 +26,7 @@ func (e *engine) newFnCtx(fn *ssa.Function, blk *block, name string) *fnCtx {
 		env: map[ssa.Value]interface{}{}, strs: map[string]bool{"|str!|": true}, tys: map[string]types.Type{}, tyNames: map[string]bool{},
 		ifaces: map[string]*types.Interface{}, heapSort: map[string]string{}, boxes: map[string]string{},
 		params: map[string]Val{}, closures: map[string]*closureInfo{}, prov: map[string]string{}, siteN: map[string]int{},
-		trusted: map[string]bool{}, anchorsHit: map[*clause]int{}, loopsOf: map[*ssa.BasicBlock]int{}, theories: map[string]bool{},
+		trusted: map[string]bool{}, anchorsHit: map[*clause]int{}, anchorsSeen: map[*clause]int{}, loopsOf: map[*ssa.BasicBlock]int{}, theories: map[string]bool{},
 		rangeOf: map[*ssa.Range]*rangeInfo{}, selIdx: map[*ssa.Select]string{}, sitePos: map[string][]token.Pos{}, linearCells: map[*ssa.Alloc]bool{}, allocFacts: map[string]bool{}, unmappedClauses: map[*clause]bool{}, callOf: map[string]string{}, aliasOf: map[string]Val{}, aliasOff: map[string]string{}, aliasCell: map[*ssa.Alloc]Val{}, freshRefs: map[string]bool{}, frozenTag: map[string]*types.Map{}, frozenNow: map[string]bool{}, modsOf: map[*ssa.BasicBlock]modSet{},
 	}
 	return fc
